@@ -13,6 +13,7 @@
 #include <stddef.h>
 #include <stdint.h>
 #include <string.h>
+#include <stdlib.h>
 
 typedef struct { void *instance; void (*drop_fn)(void *); } c_box;
 typedef struct { const void *instance; const void *(*clone_fn)(const void *); void (*drop_fn)(const void *); } c_arc;
@@ -72,6 +73,34 @@ void cv_vec_remove(c_vec *v, size_t k, void *out, size_t sz) {
 void cv_vec_write(c_vec *v, size_t k, const void *e, size_t sz) { memcpy((char *)v->data + k * sz, e, sz); }
 void cv_vec_read(const c_vec *v, size_t k, void *out, size_t sz) { memcpy(out, (const char *)v->data + k * sz, sz); }
 void cv_vec_release(c_vec *v) { if (v->drop_fn) { v->drop_fn(v->data, v->len, v->capacity); v->drop_fn = 0; } }
+
+/* ---- a box MADE here (caller-provided storage): the other side must hand exactly this pointer to exactly this function,
+ * once; a box without a drop function is a loan and must never be released ---- */
+static size_t cv_box_freed_n; static void *cv_box_freed_last;
+static void cv_box_free(void *p) { cv_box_freed_n++; cv_box_freed_last = p; *(uint64_t *)p = 0xDEADDEADDEADDEADull; }
+void cv_box_make(c_box *out, uint64_t *storage, uint64_t v, int owned) { *storage = v; out->instance = storage; out->drop_fn = owned ? cv_box_free : 0; }
+size_t cv_box_freed(void) { return cv_box_freed_n; }
+const void *cv_box_freed_ptr(void) { return cv_box_freed_last; }
+
+/* ---- a vector MADE here over malloc/realloc/free: growing and releasing it are this side's business, through the two
+ * functions stored in the vector ---- */
+typedef struct { size_t reserves; size_t drops; size_t dropped_len; size_t dropped_cap; const void *dropped_data; size_t live_blocks; } cv_vecstat;
+static cv_vecstat CVS;
+static size_t cv_made_reserve(c_vec *v, size_t add) {
+    CVS.reserves++;
+    if (v->capacity - v->len >= add) return v->capacity;
+    size_t nc = v->capacity * 2; if (nc < v->len + add) nc = v->len + add; if (nc < 4) nc = 4;
+    v->data = realloc(v->data, nc * sizeof(uint64_t)); v->capacity = nc;
+    return nc;
+}
+static void cv_made_drop(void *d, size_t len, size_t cap) { CVS.drops++; CVS.dropped_len = len; CVS.dropped_cap = cap; CVS.dropped_data = d; CVS.live_blocks--; free(d); }
+void cv_vec_make(c_vec *v) { memset(&CVS, 0, sizeof CVS); v->data = malloc(sizeof(uint64_t)); v->len = 0; v->capacity = 1; v->drop_fn = cv_made_drop; v->reserve_fn = cv_made_reserve; CVS.live_blocks = 1; }
+void cv_vec_stat(cv_vecstat *out) { *out = CVS; }
+
+/* ---- a callback MADE here: collects what it is given, asks to stop from its stop-th invocation on ---- */
+typedef struct { uint64_t got[32]; size_t n; size_t stop; size_t calls; } cv_cb_state;
+static uint8_t cv_cb_fn(void *c, uint64_t v) { cv_cb_state *s = (cv_cb_state *)c; s->calls++; if (s->n < 32) s->got[s->n++] = v; return !(s->stop && s->calls >= s->stop); }
+void cv_cb_make(c_callback_u64 *cb, cv_cb_state *st) { cb->context = st; cb->func = cv_cb_fn; }
 
 /* ---- callback: the feed loop as a C caller writes it ---- */
 size_t cv_feed(c_callback_u64 *cb, const uint64_t *items, size_t n) {
